@@ -47,6 +47,33 @@ def kx_leg(agg, which, mode, profile, prop, features=()):
     return o
 
 
+def wx_leg(agg, profile, prop, features=()):
+    """The 256-archetype world: every archetype index x populations {single, first+last, every, none}. prop=None counts every tag."""
+    binary = build("wx", profile, features)
+    o = _json_out([binary, "run", "--out", _workfile("wx-%s-%s" % (profile, "-".join(features) or "default"))], _workfile("wx-%s-%s" % (profile, "-".join(features) or "default")))
+    agg["evaluations"] = agg.get("evaluations", 0) + o["evaluations"]
+    agg["executions"] = agg.get("executions", 0) + o["evaluations"]
+    agg["legs"].append({"engine": "wx", "world": "256 archetypes, implicit ids 0..=255", "config": "%s[%s] %s" % (profile, ",".join(features), o["config"]), "evaluations": o["evaluations"], "detail": {k: v for k, v in o["detail"].items() if k != "samples"}, "wall_s": round(o["wall_s"], 2)})
+    for v in o["violations"]:
+        rec = dict(v, engine="wx", extra={"profile": profile, "features": list(features), "input": v["input"]}, history=None, profile=profile, features=list(features))
+        if prop is None or prop in v["prop"].split(","):
+            agg["violations"].append(dict(rec, prop=prop or v["prop"].split(",")[0]))
+        else:
+            k = "%s:%s" % (v["prop"], v["oracle"])
+            agg["collateral"][k] = agg["collateral"].get(k, 0) + 1
+    return o
+
+
+# properties that also get the 256-archetype world, with the build features it needs
+WX_PROPS = {"C01": (), "C05": (), "C06": (), "C07": (), "C14": (), "C15": (), "C17": ("events",)}
+
+
+def wx_into(agg, pid, tier):
+    if pid in WX_PROPS:
+        for profile in (("chk",) if tier == "quick" else ("chk", "rel")):
+            wx_leg(agg, profile, pid, WX_PROPS[pid])
+
+
 def check_c14(tier, seed, t0):
     agg = _agg()
     mode = "boundary" if tier == "quick" else "full"
@@ -59,6 +86,7 @@ def check_c14(tier, seed, t0):
     agg["legs"] += hx["legs"]
     agg["violations"] += hx["violations"]
     agg["samples"] += hx["samples"][:2]
+    wx_into(agg, "C14", tier)
     agg["distinct_nontrivial"] = o1["detail"]["boundary_values"] + (o1["detail"]["full_sweep_keys"] * len(o1["detail"]["full_sweep_generations"]))
     agg["capped"] = False
     agg["rule"] = ("every (key, generation) value of the enumerated set is pushed through from_raw/raw, archetype_id, try_from/from_any/from_any_unchecked/into_any for three declared archetypes (ids 0, 7, 255), "
@@ -260,6 +288,7 @@ def check_px(pid, tier, seed, t0):
         "C15": "all declarations of 1..k archetypes (and 1..k components) each with an explicit id from {none,0,1,2,254,255} and a cfg-disabled flag, plus all mixed two-archetype/two-component id assignments, are run through the REAL DataWorld::new and compared with the discriminant fold; a systematic stride is compiled with the real rustc (constants, ecs_component_id!, handle ids, SelectArchetype over all 256 ids; ill-formed ones must fail with the right diagnostic); non-trivial = declarations with >= 2 enabled items or that must be rejected",
         "C16": "all assignments of {none,p0,p1,p2} to the six decoration sites of a 2x2 declaration (x id variants) x all truth vectors, and all parameter lists (x decorations x truth vectors x five generators) are run through the real code and compared (a) with the reference 'delete disabled items' and (b) differentially with the undecorated twin (token-identical expansion after cfg-stripping); decorated/twin module pairs with >= 2 distinct predicates of mixed truth are compiled and executed with the real rustc (this exercises the generated cfg-probing macro chain); non-trivial = cases with >= 2 predicates of mixed truth",
     }[pid]
+    wx_into(agg, pid, tier)
     return finish_generic(pid, tier, seed, "exploration", agg, t0)
 
 
@@ -382,6 +411,8 @@ def check_c19(tier, seed, t0):
                                               "engine": "mx", "history": None, "extra": {"scenario": leg["scenario"]}})
                 graph.setdefault(key, (cnt, "%s %s" % (profile, ",".join(feats))))
         a2 = _agg()
+        if tier == "thorough" or (feats, profile) in ((("events",), "chk"), (("wrapping_version",), "rel")):
+            wx_leg(a2, profile, None, feats)
         ax_leg(a2, 2, profile, feats)
         kx_leg(a2, "c14", "boundary", profile, "C14", feats)
         kx_leg(a2, "c03", "boundary", profile, "C03", feats)
@@ -390,7 +421,7 @@ def check_c19(tier, seed, t0):
         agg["evaluations"] += a2["evaluations"]
         for k, v in a2["known_hits"].items():
             agg["known_hits"][k] = agg["known_hits"].get(k, 0) + v
-        per_config.append({"features": list(feats), "profile": profile, "hx_states": sub["states"], "hx_transitions": sub["transitions"], "ax_cells": a2["legs"][0]["cells"], "kx_evaluations": a2["evaluations"] - a2["legs"][0]["cells"], "wall_s": round(time.time() - t1, 1)})
+        per_config.append({"features": list(feats), "profile": profile, "hx_states": sub["states"], "hx_transitions": sub["transitions"], "ax_cells": [l for l in a2["legs"] if l.get("engine") == "ax"][0]["cells"], "kx_wx_evaluations": a2["evaluations"] - [l for l in a2["legs"] if l.get("engine") == "ax"][0]["cells"], "wall_s": round(time.time() - t1, 1)})
         log("C19 config [%s %s]: %d states, %d transitions, %.0fs" % (profile, ",".join(feats) or "default", sub["states"], sub["transitions"], time.time() - t1))
     # `events` off => no event API; on => it exists (compile-level, real rustc); component limit under 32_components
     for feats, tag in (((), "default"), (("events",), "events")) + ((((("32_components",), "c32")),) if tier == "thorough" else ()):
@@ -450,6 +481,11 @@ def replay(rp):
         rc, out, err = run(cmd)
         print(out)
         return 1 if rc != 0 else 0
+    if eng == "wx":
+        binary = build("wx", ex.get("profile", "chk"), tuple(ex.get("features") or ()))
+        rc, out, err = run([binary, "replay", ex["input"]["phase"], str(ex["input"]["archetype_index"])])
+        print(out)
+        return 1 if rc != 0 else 0
     if eng == "ax":
         binary = build("ax", ex.get("profile", "chk"), tuple(ex.get("features") or ()))
         rc, out, err = run([binary, "replay", json.dumps(ex["stack"]), str(ex["popx"]), str(ex["popy"])])
@@ -477,5 +513,8 @@ def build_all():
         build("ax", prof)
     build("px", "chk", (), rustflags_extra="")
     build("px", "chk", ("events",), rustflags_extra="")
+    build("wx", "chk")
+    build("wx", "chk", ("events",))
+    build("wx", "rel", ("wrapping_version",))
     log("setup: all quick-tier engine configurations built in %.0fs" % (time.time() - t0))
     return 0
